@@ -35,6 +35,22 @@ def authenticate (e : AuthEnv) (claimed : String) (peer : Peer) (i : AuthIn) : P
         if !e.verifyHostname dns host then (peer, "err:hostname")
         else ({ peer with did := claimed, authenticated := true }, "ok")
 
+/-- how the TLS server treats client certificates (`tls.Config.ClientAuth`) -/
+inductive ClientAuthMode where
+  | requireAndVerify        -- tls.RequireAndVerifyClientCert
+  | other (name : String)   -- anything weaker
+  deriving DecidableEq, Repr, Inhabited
+
+def ClientAuthMode.ofSource (s : String) : ClientAuthMode :=
+  if s == "tls.RequireAndVerifyClientCert" then .requireAndVerify else .other s
+
+/-- does the TLS server complete the handshake with (and hand the protocol the certificate of) a client that presented
+    a certificate (`presented`) which chains to the trust store (`chains`)? — crypto/tls is a contract, exercised by the harness -/
+def serverAcceptsClient (mode : ClientAuthMode) (presented chains : Bool) : Bool :=
+  match mode with
+  | .requireAndVerify => presented && chains
+  | .other _ => presented
+
 /-- which `grpc.Authenticator` the connection manager is given -/
 inductive AuthKind where
   | tls | dummy
